@@ -240,8 +240,25 @@ def run_shard(sh):
     else:
         # Update.parse on mutated whole UPDATE bodies (the 'never raises' clause needs in-range bodies)
         ups = [b for t, b in corpus.messages() if t == 2] or [b'\x00\x00\x00\x00']
+        # well-formed bodies with every part present - withdrawn routes, attributes and NLRI, with and without path identifiers -
+        # from the reference encoder: seeds for mutation, and inputs of their own for every parse variant
+        from vlib import refenc, gen
+        shaped = []
+        for k in range(24):
+            wd, nl = gen.prefix_list4(rng, 3) or ['198.51.100.0/24'], gen.prefix_list4(rng, 3) or ['192.0.2.0/24']
+            at = {1: 0, 2: [[2, [65001, 65002]]], 3: '10.0.0.1'}
+            pids = None if k % 2 else ([rng.choice([0, 1, 65536]) for _ in nl], [rng.choice([0, 7]) for _ in wd])
+            try:
+                shaped.append(refenc.update(at, nl, wd, asn4=bool(k % 4 < 2), path_ids=pids)[19:])
+            except TypeError:
+                shaped.append(refenc.update(at, nl, wd, asn4=bool(k % 4 < 2))[19:])
+        ups = ups + shaped
         fs = [(n, f) for n, f in decs if n.startswith('update.Update.parse[')]
         inr = 0
+        for d in shaped:
+            inr += in_range(d)
+            for n, f in fs:
+                R.call(n, f, d)
         for i in range(sh['n']):
             if tbox.expired():
                 break
